@@ -256,13 +256,15 @@ def _explore_chunk(idx):
     ok, out = core.compile_js(d, minify=bool(_WORK.get('minify')), keep_all=bool(_WORK.get('keep_all')))
     if not ok:
         import re as _re
-        internal = '[compiler panic]' in out or 'internal compiler error' in out
+        # an internal error is either reported by the compiler's own bailout or is a Go panic that kills the compiler process
+        crash = _re.search(r'(?m)^panic: [^\n]*', out) if 'goroutine ' in out and 'gopherjs/compiler' in out else None
+        internal = '[compiler panic]' in out or 'internal compiler error' in out or bool(crash)
         for c in ch:
             rep.cases += 1
             if internal and len(ch) == 1:
                 # the compiler aborted with an internal error on a valid program: a violation of "accepted without an internal error"
                 # (replayed like any other: native go builds and runs it, the real gopherjs fails)
-                m = _re.search(r'\[compiler panic\][^\n]*', out)
+                m = _re.search(r'\[compiler panic\][^\n]*', out) or crash
                 kn = [k for k in known if k.get('status', 'known') == 'known' and _re.fullmatch(k['harness'], c.tag) and k.get('class_smt') == 'true']
                 if kn:
                     rep.known_hits.append({'tag': c.tag, 'finding': kn[0], 'model': {}})
